@@ -184,14 +184,25 @@ func (spec *Spec) Copy(version string) *Spec {
 // The method Compile calls this method.  ParsePatterns is exposed to
 // tools that might need to parse patterns without wanted to Compile
 // them.
+//
+// Every pattern is parsed (according to PatternSyntax) exactly once:
+// when all patterns have been parsed, they are in native form, and
+// PatternSyntax is updated to "none" to say so.  Parsing (or
+// compiling) again, or serializing the Spec and parsing that, then
+// leaves the patterns alone.  (A custom PatternParser should therefore
+// return a pattern unchanged when the syntax is "none", as
+// DefaultPatternParser does.)  If any pattern can't be parsed, the
+// Spec is not changed.
 func (spec *Spec) ParsePatterns(ctx context.Context) error {
 	if spec.PatternParser == nil {
 		spec.PatternParser = DefaultPatternParser
 	}
 
-	if spec.Nodes == nil {
-		return nil
+	type parsed struct {
+		b *Branch
+		x interface{}
 	}
+	var ps []parsed
 
 	for _, n := range spec.Nodes {
 		if n == nil || n.Branches == nil {
@@ -210,9 +221,19 @@ func (spec *Spec) ParsePatterns(ctx context.Context) error {
 			if x, err = Canonicalize(x); err != nil {
 				return err
 			}
-			b.Pattern = x
+			ps = append(ps, parsed{b, x})
 		}
 	}
+
+	for _, p := range ps {
+		p.b.Pattern = p.x
+	}
+
+	if spec.PatternSyntax != "" {
+		// The patterns are now in native form.
+		spec.PatternSyntax = "none"
+	}
+
 	return nil
 }
 
@@ -290,15 +311,7 @@ func (spec *Spec) Compile(ctx context.Context, interpreters Interpreters, force 
 			if b == nil {
 				return errors.New("null branch in node '" + name + "'")
 			}
-			x, err := spec.PatternParser(spec.PatternSyntax, b.Pattern)
-			if err != nil {
-				return err
-			}
-			// ToDo: Remove
-			if x, err = Canonicalize(x); err != nil {
-				return err
-			}
-			b.Pattern = x
+			// ParsePatterns (above) has already parsed b.Pattern.
 			if b.GuardSource != nil && (force || b.Guard == nil) {
 				guard, err := b.GuardSource.Compile(ctx, interpreters)
 				if err != nil {
